@@ -48,10 +48,10 @@ def mc_cfg(n, ver, gen, st, msgs, ts, window=True, conv="ConvergedAfterAllPairsM
         ("PROPERTIES %s\n" % PROPS if props else "") + "CHECK_DEADLOCK FALSE\n"
 
 
-def gen_cfg(n, ver, gen, st, msgs, ts, depth, atomic):
+def gen_cfg(n, ver, gen, st, msgs, ts, depth, atomic, once=False):
     return "SPECIFICATION GSpec\n" + consts(n, ver, gen, st, msgs, ts) + \
-        "  Depth = %d\n  Atomic = %s\nINVARIANTS Emit\nCHECK_DEADLOCK FALSE\n" % (
-            depth, "TRUE" if atomic else "FALSE")
+        "  Depth = %d\n  Atomic = %s\n  Once = %s\nINVARIANTS Emit\nCHECK_DEADLOCK FALSE\n" % (
+            depth, "TRUE" if atomic else "FALSE", "TRUE" if once else "FALSE")
 
 
 def write_hists(res, path, keep=None, seed=1):
@@ -173,13 +173,13 @@ def design(ctx, acc, name, cfg, expect=None, timeout=1500, count=True, coverage=
                          r"(?: \((\d+) (\d+) (\d+) (\d+)\))?>: (\d+):(\d+)", ln)
             if not m:
                 continue
-            name = m.group(1)
+            act = m.group(1)
             if m.group(2):
                 # a disjunct of Next quantified over the message set: name it by its source text
                 l, c1, c2 = int(m.group(2)), int(m.group(3)), int(m.group(5))
                 mm = re.search(r"(\w+)\(m\)", src[l - 1][c1 - 1:c2])
-                name = mm.group(1) if mm else name
-            acts[name] = acts.get(name, 0) + int(m.group(7))
+                act = mm.group(1) if mm else act
+            acts[act] = acts.get(act, 0) + int(m.group(7))
         need = ["Tick", "Restart", "StateChange", "SendSync", "HandleSync", "HandleAck", "HandleAck2", "Drop"]
         dead = [a for a in need if not acts.get(a)]
         acc.action_counts = acts
@@ -305,7 +305,10 @@ def run(ctx):
     # ------------------------------------------------------------ 2. replay into real code
     if not thorough:
         gen_and_replay(ctx, acc, "atomic_n3_d4", gen_cfg(3, 1, 1, 1, 1, ("hub", "skew"), 5, True))
-        gen_and_replay(ctx, acc, "atomic_n2_d6", gen_cfg(2, 1, 1, 1, 1, ("out", "full"), 7, True))
+        gen_and_replay(ctx, acc, "atomic_n2_d6", gen_cfg(2, 1, 1, 1, 1, ("out",), 7, True))
+        # 4 nodes, partially overlapping knowledge: every order and direction of one whole
+        # exchange per pair (6 exchanges) - each history ends with the convergence assertion
+        gen_and_replay(ctx, acc, "atomic_n4_allpairs", gen_cfg(4, 1, 0, 0, 1, ("chain", "part"), 7, True, once=True))
         gen_and_replay(ctx, acc, "msg_n3_d5", gen_cfg(3, 1, 1, 1, 2, ("skew",), 6, False))
         gen_and_replay(ctx, acc, "msg_n3_d5_hub", gen_cfg(3, 1, 0, 0, 2, ("hub",), 6, False))
         gen_and_replay(ctx, acc, "msg_n2_d8", gen_cfg(2, 1, 0, 0, 2, ("skew", "out"), 9, False))
@@ -313,6 +316,7 @@ def run(ctx):
         gen_and_replay(ctx, acc, "atomic_n3_d4", gen_cfg(3, 1, 1, 1, 1, ALL_TOPOS, 5, True))
         gen_and_replay(ctx, acc, "atomic_n3_d5", gen_cfg(3, 1, 1, 0, 1, ("hub", "skew"), 6, True), keep=0.5)
         gen_and_replay(ctx, acc, "atomic_n2_d6", gen_cfg(2, 1, 1, 1, 1, ALL_TOPOS, 7, True))
+        gen_and_replay(ctx, acc, "atomic_n4_allpairs", gen_cfg(4, 1, 0, 0, 1, ("chain", "part"), 7, True, once=True))
         gen_and_replay(ctx, acc, "msg_n3_d6", gen_cfg(3, 1, 1, 1, 2, ("skew",), 7, False))
         gen_and_replay(ctx, acc, "msg_n3_d6_hub", gen_cfg(3, 1, 0, 0, 2, ("hub",), 7, False), keep=0.5)
         gen_and_replay(ctx, acc, "msg_n2_d9", gen_cfg(2, 1, 0, 0, 2, ("skew", "out"), 10, False), keep=0.5)
